@@ -37,6 +37,11 @@ int harness_main(void) {
   int mainpart = fmc_param("main", 0);  // main fiber is one of the participants
   rt_start();
   fiber_barrier_init(&bar, count);
+  fmc_focus(&bar, sizeof bar);
+  // -Dwrap=1: the barrier has already been through 2^32/count - 1 complete rounds (any number of
+  // rounds is allowed; a round boundary with both waiter lists empty is an ordinary state), so
+  // the arrival counter crosses 2^32 during the second round explored here
+  if (fmc_param("wrap", 0)) bar.counter = (4294967296ULL / (unsigned)count - 1) * (unsigned)count;
   fiber_t* f[8];
   fmc_begin();
   int nf = mainpart ? count - 1 : count;
